@@ -109,8 +109,8 @@ func runTxCacheUnit(e *env) {
 	}
 	for rep := 0; rep < e.run.N(3, 40); rep++ {
 		for _, cf := range cfgs {
-			if cf.fill > 0 && rep > 0 && !e.run.Thorough() {
-				continue
+			if cf.fill > 0 && (rep > 1 || (rep > 0 && !e.run.Thorough())) {
+				continue // the 10000-entry traces cost ~10 s each in Coq
 			}
 			u := &txcUnit{ids: map[elacommon.Uint256]int{}, txs: map[int]interfaces.Transaction{}, big: map[int]interfaces.Transaction{}, vol: cf.vol, memf: cf.memf}
 			u.c = indexers.NewTxCache(&config.Configuration{TxCacheVolume: cf.vol, MemoryFirst: cf.memf})
